@@ -58,8 +58,11 @@ theorem C08_module_lookup_relocation_invariant (d a : Nat) (mods : List Module) 
     | some m =>
       simp only [Option.map_some, Module.shift]
       have : (m.start + d = a + d) ↔ (m.start = a) := by omega
-      simp only [this]
-      split <;> rfl
+      have h2 : (m.stop + d ≤ a + d) ↔ (m.stop ≤ a) := by omega
+      simp only [this, h2]
+      split
+      · split <;> rfl
+      · rfl
   unfold findModule
   rw [cand]
   cases findCand mods a with
